@@ -160,9 +160,14 @@ def run_impl(project, keep=False, extra_env=None):
     root = os.path.realpath(d)
     try:
         write_project(d, project["files"])
-        r = run_laze(d, project.get("args", {}), extra_env=extra_env)
+        args = project.get("args", {})
+        local = args.get("local")
+        if local is not None:
+            r = run_laze(d, args, extra_env=extra_env, global_mode=False, cwd=os.path.join(d, local))
+        else:
+            r = run_laze(d, args, extra_env=extra_env)
         r["dump"] = read_dump(d)
-        nf = os.path.join(d, "build", "build-global.ninja")
+        nf = os.path.join(d, "build", "build-local.ninja" if local is not None else "build-global.ninja")
         r["ninja"] = open(nf).read() if os.path.exists(nf) else None
         r["root"] = root
         return r
